@@ -197,8 +197,6 @@ def _move_return_edges(
 
     old_func = _function_of_block(module, old_target)
     new_func = _function_of_block(module, new_target)
-    if old_func == new_func:
-        return
 
     function_blocks = _auxdata.function_blocks.get(module)
     assert function_blocks is not None
@@ -303,7 +301,7 @@ def _sym_expr_access_type(
     Determines how a symbol is used in a symbolic expression.
     """
 
-    assert block.address
+    assert block.address is not None
 
     expr_addr = block.address + offset
     if isinstance(block, gtirb.CodeBlock):
